@@ -17,8 +17,14 @@ import multiprocessing as mp
 
 VERIF = os.path.dirname(os.path.dirname(os.path.dirname(os.path.abspath(__file__))))
 REPO = os.environ.get("VERIF_REPO", "/repo")
-EVIDENCE_DIR = os.path.join(VERIF, "evidence")
-REPLAY_DIR = os.path.join(VERIF, "out", "replays")
+# Only a run on the real subject (/repo's working tree) may write /verif/evidence: a run against a scratch
+# tree (VERIF_REPO=<mutant worktree>, see tools/mutrun.sh) writes under out/mutant/ (git-ignored) instead, so
+# the committed evidence always describes the unchanged tree.  VERIF_EVIDENCE_DIR overrides either.
+_ON_SUBJECT = os.path.realpath(REPO) == os.path.realpath("/repo")
+EVIDENCE_DIR = os.environ.get("VERIF_EVIDENCE_DIR") or (
+    os.path.join(VERIF, "evidence") if _ON_SUBJECT else os.path.join(VERIF, "out", "mutant", "evidence")
+)
+REPLAY_DIR = os.path.join(VERIF, "out", "replays") if _ON_SUBJECT else os.path.join(VERIF, "out", "mutant", "replays")
 FINDINGS_FILE = os.path.join(VERIF, "known_findings.json")
 NCPU = int(os.environ.get("VERIF_JOBS", "0")) or min(16, os.cpu_count() or 1)
 
